@@ -202,10 +202,35 @@ fn c17_root_is_not_a_repetition() {
     kani::cover!(true, "reachable");
 }
 
-// NOT BUILT: "analyze_iterative records the root position's hash before the first iteration".  Any harness that reaches
-// analyze_iterative makes the Kani 0.68 compiler panic (kani-compiler/src/intrinsics.rs:243, the catch_unwind intrinsic
-// pulled in by rayon's par_iter), so that statement is checked by reading only: `state_history.increment(
-// game_state_hash)` is the statement right before the `for depth in 0..max_depth` loop.
+// ---- the head of analyze_iterative --------------------------------------------------------------------------------------
+// Any harness that reaches the iterative-deepening loop of analyze_iterative makes the Kani 0.68 compiler panic (the
+// catch_unwind intrinsic pulled in by rayon's par_iter).  Everything BEFORE the loop is extracted textually and verbatim on
+// every run (driver: EXTRACTS kind "fn_range", from `let max_depth = ..` up to, not including, `for depth in 0..max_depth {`)
+// and wrapped as a function of the four parameters the head uses, returning the four locals the loop goes on with.
+include!("analyze_iterative_head_extracted.rs");
+
+/// With a search memory handed over (the only case in which the history can hold anything): the root position's hash is
+/// computed with the memory's hasher and recorded exactly once before the first iteration; nothing is looked up.
+#[kani::proof]
+#[kani::unwind(18)]
+#[kani::stub(weechess_core::ZobristHasher::hash, stub_hash)]
+#[kani::stub(StateHistory::lookup, stub_lookup)]
+#[kani::stub(StateHistory::increment, stub_increment)]
+fn c17_root_hash_is_recorded() {
+    reset();
+    let state = two_kings_state();
+    let rng = unsafe { std::mem::MaybeUninit::<RandomNumberGenerator>::zeroed().assume_init() };
+    let max_depth: Option<usize> = if kani::any() { Some(kani::any()) } else { None };
+    let (hasher, tt, history, root_hash) = analyze_iterative_head(state, rng, max_depth, Some(placeholder_artifact()));
+    unsafe {
+        assert!(root_hash == WORDS[0], "the root hash is the hasher's hash of the root position");
+        assert!(WORDS[2] == 1, "recorded exactly once");
+        assert!(WORDS[1] == WORDS[0], "what is recorded is the root position's hash");
+        assert!(!FLAGS[0] && !FLAGS[1] && !FLAGS[2]);
+    }
+    kani::cover!(max_depth.is_none(), "unbounded search reachable");
+    std::mem::forget((hasher, tt, history));
+}
 
 // ---- C03: the line builder -------------------------------------------------------------------------------------------
 
